@@ -2,7 +2,7 @@
 Spec: server/AcceptDispatch.tla (C01_Conservation, C01_ServedOnce, C01_NoSilentDrop); worker-side drain in Worker.tla."""
 import srvflow
 
-INV = ["T_C01_ServedOnce", "T_C01_Conservation", "T_C01_NoSilentDrop", "T_C07_QueuedMeansWoken"]
+INV = ["T_C01_ServedOnce", "T_C01_Conservation", "T_C01_NoSilentDrop", "T_C07_QueuedMeansWoken", "T_C08_NoPanic", "T_C08_NoSpin"]
 DESIGN = ["MC_core_2l.cfg", "MC_core_quick.cfg", "MC_fault_w1.cfg"]
 EDGES = ["MC_core_2l.cfg", "MC_fault_w1.cfg"]
 THOROUGH = ["MC_core_w3l3.cfg", "MC_core_w3l3c7.cfg", "MC_cmd_w2.cfg", "MC_cmd_w2b.cfg", "MC_fault2.cfg"]
